@@ -61,7 +61,13 @@ def gen_rt(rng, tier):
         names = [rng.choice(pool) for _ in range(m)]
         if rng.random() < 0.3:
             names = [names[0]] * m
-        yield {"samples": [f"s{i}" for i in range(ns)], "names": names, "bits": [[bits(rand_double(rng)) for _ in range(m)] for _ in range(ns)], "gz": rng.random() < 0.2, "cov": rng.random() < 0.3, "subset": rng.choice([None, None, "some"]), "seed": rng.randrange(2**31)}
+        table = [[bits(rand_double(rng)) for _ in range(m)] for _ in range(ns)]
+        if rng.random() < 0.12:
+            # a table of whole numbers only (case/control labels, counts) – with a negative zero among them
+            table = [[bits(float(rng.choice([0, 1, 1, 2, -3, 40, 2**53, -(2**31)]))) for _ in range(m)] for _ in range(ns)]
+            if rng.random() < 0.7:
+                table[rng.randrange(ns)][rng.randrange(m)] = bits(-0.0)
+        yield {"samples": [f"s{i}" for i in range(ns)], "names": names, "bits": table, "gz": rng.random() < 0.2, "cov": rng.random() < 0.3, "subset": rng.choice([None, None, "some"]), "seed": rng.randrange(2**31)}
 
 
 def impl_rt(case):
@@ -213,7 +219,7 @@ def oracle_parse(case, obs):
 # ------------------------------------------------------------------ table operations
 def gen_ops(rng, tier):
     for _ in range(200 if tier == "quick" else 6000):
-        ns, m = rng.randint(1, 6), rng.randint(1, 3)
+        ns, m = rng.choice([1, 2, 3, 4, 5, 6, 6, 7]), rng.randint(1, 3)
         data = [[rng.choice([-9.0, 0.0, 1.0, 2.5, -3.0, 7.0, 1e-9 * rng.randint(1, 9), 1e-12 * rng.randint(1, 9), 170.0 + rng.randint(0, 9)]) for _ in range(m)] for _ in range(ns)]
         if rng.random() < 0.3:
             j = rng.randrange(m)
@@ -228,12 +234,21 @@ def gen_ops(rng, tier):
                 r[j] = off + step * rng.randint(0, 19)
         names = [f"p{j}" for j in range(m)]
         cs = rng.choice([None, rng.sample(names, rng.randint(1, m))])
+        rs_special = None
+        if ns >= 4 and rng.random() < 0.25:
+            # a contiguous range of samples, lowest first and highest last, the ones in between permuted
+            lo = rng.randint(0, ns - 4)
+            hi = rng.randint(lo + 3, ns - 1)
+            mid = list(range(lo + 1, hi))
+            while mid == sorted(mid):
+                rng.shuffle(mid)
+            rs_special = [f"s{i}" for i in [lo] + mid + [hi]]
         if m > 1 and rng.random() < 0.25:
             # a repeated column name (what `simphenotype --replications` produces): subsetting by samples only must still work
             names = [rng.choice(["H1", "bmi"]) for _ in range(m)]
             names[1] = names[0]
             cs = None
-        yield {"samples": [f"s{i}" for i in range(ns)], "names": names, "data": data, "rs": rng.choice([None, rng.sample([f"s{i}" for i in range(ns)] + ["zz"], rng.randint(1, ns + 1))]), "cs": cs, "cov": rng.random() < 0.3}
+        yield {"samples": [f"s{i}" for i in range(ns)], "names": names, "data": data, "rs": rs_special or rng.choice([None, rng.sample([f"s{i}" for i in range(ns)] + ["zz"], rng.randint(1, ns + 1))]), "cs": cs, "cov": rng.random() < 0.3}
 
 
 def impl_ops(case):
